@@ -8,7 +8,7 @@ for name, tier, mem, to in [("empty", "quick", 8, 600), ("p_t0", "quick", 10, 90
                             ("e_t1", "thorough", 24, 2400), ("o_t0", "thorough", 24, 2400), ("pp_t0", "thorough", 24, 2400)]:
     cls = name.split("_")[0]
     shape = ", ".join(CL[c] for c in cls) if cls != "empty" else "empty name"
-    hs.append(H(P + "c57_rt_" + name, tier=tier, timeout=to, mem=mem, covers=1, extra_args=STUB,
+    hs.append(H(P + "c57_rt_" + name, tier=tier, timeout=to, mem=mem, covers=1, extra_args=STUB, unwindset=[(r"gix_quote6ansi_c4undo\.0:", len(cls) + 2 if cls != "empty" else 2)],
                 desc="undo(quote_c_style(s) ++ tail) == (s, len(quote_c_style(s))) for every s of this shape and every tail",
                 inputs="s: one byte per class [%s], every value of the class; tail: %s arbitrary bytes" % (shape, name[-1] if name != "empty" else "1"),
                 bound="quoted length concrete per shape; unwind = total length + 1"))
